@@ -354,10 +354,40 @@ def residuals(rc):
         if isinstance(vv, ast.Call) and call_name(vv) == "lstsq":
             coefs[k] = (col(vv.args[0]), col(vv.args[1]), isinstance(v, ast.Subscript) and isinstance(v.slice, ast.Constant) and v.slice.value == 0)
     rc.ob(f"regressions {coefs}")
+    def coef_info(v):
+        vv = v.value if isinstance(v, ast.Subscript) else v
+        if isinstance(vv, ast.Call) and call_name(vv) == "lstsq":
+            return (col(vv.args[0]), col(vv.args[1]), isinstance(v, ast.Subscript) and isinstance(v.slice, ast.Constant) and v.slice.value == 0)
+        return None
+
+    def as_resid(v):
+        if isinstance(v, ast.BinOp) and isinstance(v.op, ast.Sub) and col(v.left) and isinstance(v.right, ast.Call) and call_name(v.right) == "dot" and v.right.args:
+            ce = v.right.args[0]
+            if isinstance(ce, ast.Name):
+                cname = ce.id
+            else:
+                cname = f"<{norm(ce, 50)}>"
+                ci_ = coef_info(ce)
+                if ci_:
+                    coefs[cname] = ci_
+            return (col(v.left), col(v.right.func.value), cname)
+        return None
+
+    pr = [c for c in calls_named(fi, "pearsonr")]
     resid = {}
     for k, v in defs.items():
-        if isinstance(v, ast.BinOp) and isinstance(v.op, ast.Sub) and col(v.left) and isinstance(v.right, ast.Call) and call_name(v.right) == "dot":
-            resid[k] = (col(v.left), col(v.right.func.value), dotted(v.right.args[0]))
+        r_ = as_resid(v)
+        if r_:
+            resid[k] = r_
+    # residuals written directly as arguments of the test (no intermediate name)
+    inline_args = {}
+    for c in pr:
+        for a_ in c.args:
+            r_ = as_resid(a_)
+            if r_:
+                key = f"<{norm(a_, 60)}>"
+                resid[key] = r_
+                inline_args[id(a_)] = key
     rc.ob(f"residuals {resid}")
     good = {}
     for k, (target, design, coef) in resid.items():
@@ -369,10 +399,9 @@ def residuals(rc):
             good[target] = k
     if set(good) != {"X", "Y"}:
         rc.fail(fi, fn, "both X and Y must be residualised on Z", construct="residual pair")
-    pr = [c for c in calls_named(fi, "pearsonr")]
-    cond = [c for c in pr if {dotted(a) for a in c.args} == set(good.values())]
+    cond = [c for c in pr if {inline_args.get(id(a), dotted(a)) for a in c.args} == set(good.values())]
     unc = [c for c in pr if {col(a) for a in c.args} == {"X", "Y"}]
-    rc.ob(f"correlations: conditional {[norm(c) for c in cond]}, unconditional {[norm(c) for c in unc]}")
+    rc.ob(f"correlations: conditional {[norm(c, 90) for c in cond]}, unconditional {[norm(c) for c in unc]}")
     if len(good) == 2 and not cond:
         rc.fail(fi, fn, "the conditional test must correlate the two residuals", construct="correlate residuals")
     if not unc:
